@@ -214,9 +214,14 @@ func main() {
 			add("parentheses", "gauge g\n/(\\d+)/ {\n  g = ($1 "+o1+" 7) "+o2+" 2\n}\n")
 			add("parentheses", "gauge g\n/(\\d+)/ {\n  g = $1 "+o1+" (7 "+o2+" 2)\n}\n")
 			add("parentheses", "gauge g\n/(\\d+)/ {\n  g = $1 "+o1+" 7 "+o2+" 2\n}\n")
+			// mixed int/float groups: the checker wraps the promoted operand in a conversion node
+			add("parentheses-mixed", "gauge g\n/(\\d+) (\\d+\\.\\d+)/ {\n  g = ($1 "+o1+" 1) "+o2+" 2.5\n}\n")
+			add("parentheses-mixed", "gauge g\n/(\\d+) (\\d+\\.\\d+)/ {\n  g = $2 "+o1+" ($1 "+o2+" 3)\n}\n")
+			add("parentheses-mixed", "gauge g\n/(\\d+) (\\d+\\.\\d+)/ {\n  g = 0.5 "+o1+" ($1 "+o2+" $2)\n}\n")
 		}
 		for _, r := range []string{"<", ">=", "==", "!="} {
 			add("parentheses", "counter c\n/(\\d+)/ {\n  ($1 "+o1+" 7) "+r+" 2 {\n    c++\n  }\n}\n")
+			add("parentheses-mixed", "counter c\n/(\\d+)/ {\n  ($1 "+o1+" 7) "+r+" 2.5 {\n    c++\n  }\n}\n")
 			add("parentheses", "counter c\n/(\\d+)/ {\n  $1 "+r+" (7 "+o1+" 2) && ($1 > 1 || $1 < 0) {\n    c++\n  }\n}\n")
 		}
 	}
